@@ -21,7 +21,8 @@ KEYS = ["A.r", "A.l", "B.r", "B.l", "*.r", "*.l", "A.*", "B.*", "*.*"]
 RULE = ("complete enumeration: 512 key subsets x 3 grammar-RREL placements x {callable, RREL string} x {B generic, B user "
         "class} = 6144 configurations, one model with 2 objects x (1 single + 2 list) references each. non-trivial: >=2 keys "
         "registered that apply to the same reference, or a grammar RREL competing with a registered key; distinct by "
-        "canonical JSON")
+        "canonical JSON"
+        " plus 920 re-registration sequences (load, register_scope_providers with another key set, load)")
 ASSUMPTIONS = [
     "a registered callable may return any object of the target type; the harness' providers ignore the name",
     "keys for another rule must not influence a reference (both rules are present in every model)",
